@@ -911,6 +911,9 @@ func (engine *Engine) readConnBlocking(conn *Conn, parser *Parser, decrease func
 		readBufferPool.Free(pbuf)
 		if !conn.Trasfered {
 			parserCloser.CloseAndClean(err)
+			// the reading goroutine is the owner of a blocking conn: when it
+			// exits (keepalive timeout, read error) the conn must be closed.
+			_ = conn.Close()
 		}
 		engine.mux.Lock()
 		switch vt := conn.Conn.(type) {
